@@ -357,4 +357,8 @@ def sf_bnot(ev, m):
     return VInt(-_i(ev, m) - 1)
 
 
+def sf_sync_len_pack(ev, c):
+    return VInt(z3.Function('sync_len_pack', T.I, T.I)(c.z))
+
+
 SPECFUNCS = {k[3:]: v for k, v in list(globals().items()) if k.startswith('sf_')}
